@@ -197,6 +197,22 @@ def features(spec, mat):
     return feats
 
 
+class _PlainMapping(__import__("collections").abc.Mapping):
+    """a Mapping that is no dict"""
+
+    def __init__(self, d):
+        self._d = dict(d)
+
+    def __getitem__(self, k):
+        return self._d[k]
+
+    def __iter__(self):
+        return iter(self._d)
+
+    def __len__(self):
+        return len(self._d)
+
+
 def member_instances(spec, wire, mat):
     """`wire` with every direct member that is (or holds) a structured class replaced by an instance of that class whose
     own members still hold their wire values; None if no direct member is structured"""
@@ -261,6 +277,31 @@ def check_node(p, node, col, feats):
                           f"node {path} ({mat.expr(spec_n, None)}) with structured members given as instances holding wire values: "
                           f"library {describe(lib)}; rebuilt from member routines {describe(ref)}",
                           bucket=f"member-instances|{spec_n['k']}|{diff_bucket(lib[1], ref[1]) if lib[0] == ref[0] == 'ok' else lib[0] + '/' + ref[0]}"[:90])
+    # ---- marshal side: one direct member replaced by None / by something its type does not accept (the member routine decides
+    #      what happens to it - also for None under a member type that is not Optional)
+    if spec_n["k"] in ("list", "deque", "vtuple", "tuple", "dict") and len(value) > 0:
+        for junk_src in ("None", "object()"):
+            junk = inputs.eval_src(junk_src)
+            if spec_n["k"] == "dict":
+                kk = next(iter(value))
+                bad_v = dict(value)
+                bad_v[kk] = junk
+            else:
+                items_ = list(value)
+                items_[len(items_) // 2] = junk
+                bad_v = type(value)(items_) if spec_n["k"] != "deque" else type(value)(items_)
+            col.ev()
+            col.label("corrupted-member:marshal")
+            tl.clear_all()
+            lib = outcome(lambda: tl.marshal(bad_v, t=T_n))
+            tl.clear_all()
+            ref = outcome(rebuild_marshal, spec_n, bad_v, mat)
+            if nontriv:
+                col.nt(p.key + path + "marshal-corrupt" + junk_src)
+            if not same_outcome(lib, ref):
+                col.violation("exception-parity", dict(case_base, direction="marshal", junk=junk_src),
+                              f"node {path} ({mat.expr(spec_n, None)}) marshalled with one member := {junk_src}: library {describe(lib)}; rebuilt from member routines {describe(ref)}",
+                              bucket=f"marshal|{spec_n['k']}|{lib[0]}/{ref[0]}")
     # ---- mapping keys that compare (and hash) equal across classes, in one pairs input and as mappings one after the other
     if spec_n["k"] == "dict" and isinstance(wire, dict) and wire:
         import decimal as _dec
@@ -319,6 +360,12 @@ def check_node(p, node, col, feats):
         shapes["pairs-generator"] = lambda: ((a, b) for a, b in wire.items())
         shapes["pairs-zip"] = lambda: zip(list(wire.keys()), list(wire.values()))
         shapes["items-view"] = wire.items()
+        # mappings that are no dict: a read-only proxy, a UserDict, a hand-written Mapping
+        import collections as _c
+        import types as _t
+        shapes["mappingproxy"] = _t.MappingProxyType(dict(wire))
+        shapes["userdict"] = _c.UserDict(wire)
+        shapes["custom-mapping"] = _PlainMapping(wire)
         if inputs.json_keys_ok(wire):
             try:
                 shapes["json"] = json.dumps(wire)
